@@ -1236,3 +1236,92 @@ func ruleNumeralValidatedWhereSkipped(c *Ctx) {
 		c.und(R, "numeral-checked-where-recognised", "-", fmt.Sprintf("expected at least 3 functions of compile.go that recognise number constants, found %d", n))
 	}
 }
+
+// ruleApiHoles: F83/F84. (a) LState.Insert at a position beyond the top fills the positions in between
+// with LNil (a register that belongs to the list must never hold an untyped Go nil: 'reads outside the
+// list give nil', and .Type() on such a value panics). (b) LState.Concat of no values does not look at
+// the stack. (c) LTable.ForEach re-reads the length of the array part on every step, so a callback
+// that shortens it (Remove) cannot make it visit slots that are no longer part of the table.
+func ruleApiHoles(c *Ctx) {
+	const R = "R10-bounds"
+	p := c.P
+	if fn := c.need(R, "lua", "(*LState).Insert"); fn != nil {
+		g := p.G(fn)
+		fills := false
+		set := p.Fn("lua", "(*registry).Set")
+		for _, li := range g.loops() {
+			for b := range li.Body {
+				for _, in := range b.Instrs {
+					if isCallTo(in, set) {
+						if u, ok := stripMI(in.(*ssa.Call).Call.Args[2]).(*ssa.UnOp); ok {
+							if gl, ok := u.X.(*ssa.Global); ok && gl.Name() == "LNil" {
+								fills = true
+							}
+						}
+					}
+				}
+			}
+		}
+		c.Sites++
+		c.check(fills, R, "Insert:gap-filled-with-nil", p.pos(fn.Pos()), "positions between the old top and the insertion point are set to LNil", "LState.Insert at a position beyond the top leaves the registers in between untouched: they hold untyped Go nil values, Get(i) hands them out and .Type() on them panics")
+	}
+	if fn := c.need(R, "lua", "(*LState).Concat"); fn != nil {
+		g := p.G(fn)
+		sc := p.Fn("lua", "stringConcat")
+		okc := len(callsTo(fn, sc)) > 0
+		for _, cl := range callsTo(fn, sc) {
+			guarded := false
+			for _, cd := range g.CondsAtInstr(cl) {
+				if b, ok := cd.V.(*ssa.BinOp); ok {
+					if k, ok := constInt(b.Y); ok && k == 0 && ((b.Op == token.EQL && !cd.Sense) || (b.Op == token.NEQ && cd.Sense) || (b.Op == token.GTR && cd.Sense)) {
+						guarded = true
+					}
+				}
+			}
+			if !guarded {
+				okc = false
+			}
+		}
+		c.Sites++
+		c.check(okc, R, "Concat:nothing-to-concatenate-reads-nothing", p.pos(fn.Pos()), "stringConcat is reached only with at least one value", "LState.Concat() with no values runs stringConcat over zero pushed values: it reads the register below the top — a value of the caller — or index -1 on an empty stack")
+	}
+	if fn := c.need(R, "lua", "(*LTable).ForEach"); fn != nil {
+		g := p.G(fn)
+		arrF := p.Field("lua", "LTable", "array")
+		okc, found := true, false
+		for _, li := range g.loops() {
+			// the loop that indexes the array part
+			indexes := false
+			for b := range li.Body {
+				for _, in := range b.Instrs {
+					if ia, ok := in.(*ssa.IndexAddr); ok {
+						if _, ok := loadsField(ia.X, arrF); ok {
+							indexes = true
+						}
+					}
+				}
+			}
+			if !indexes {
+				continue
+			}
+			found = true
+			lenInside := false
+			for b := range li.Body {
+				for _, in := range b.Instrs {
+					if cl, ok := in.(*ssa.Call); ok {
+						if bi, ok := cl.Call.Value.(*ssa.Builtin); ok && bi.Name() == "len" {
+							if _, ok := loadsField(cl.Call.Args[0], arrF); ok {
+								lenInside = true
+							}
+						}
+					}
+				}
+			}
+			if !lenInside {
+				okc = false
+			}
+		}
+		c.Sites++
+		c.check(found && okc, R, "ForEach:array-length-read-on-every-step", p.pos(fn.Pos()), "the loop over the array part evaluates len(array) in the loop", "LTable.ForEach walks a snapshot of the array part (range): when the callback removes an element the loop still visits the vacated slots — a stale value for a key the table no longer has, or an untyped Go nil")
+	}
+}
